@@ -12,27 +12,55 @@ aliasing is outside the value model.  The theorem part is about flat structs: `s
 namespace Evl.C10
 open Evl.Encrypt
 
-/-- a filtered copy has one leaf per field; unexported fields, non-string fields, nil byte slices
-and values resolved to "keep" (public, or operation overridden to none) come out unchanged -/
-theorem shape (k : Keys) (ek : Option EventKeys) (ov : Overrides) (f : Field) (l : Leaf)
-    (h : filterOne k ek ov f = some l) :
-    (f.exported = false → l = (match f.kind with | .str m => .plain m | .bytes (some m) => .plain m | .bytes none => .nilBytes | .other => .other)) ∧
-    (f.kind = .other → l = .other) ∧
-    (f.kind = .bytes none → l = .nilBytes) ∧
-    (∀ m, f.exported = true → (f.kind = .str m ∨ f.kind = .bytes (some m)) → action (fromTag f.tag ov) = .keep → l = .plain m) := by
+/-- unexported fields, non-string fields, nil byte slices, public slices and values resolved to
+"keep" (public, or operation overridden to none) come out unchanged -/
+theorem shape (k : Keys) (ek : Option EventKeys) (ov : Overrides) (f : Field) (o : FOut)
+    (h : filterOne k ek ov f = some o) :
+    (f.exported = false → o = rawField f.kind) ∧
+    (f.kind = .other → o = .one .other) ∧
+    (f.kind = .bytes none → o = .one .nilBytes) ∧
+    (∀ m, f.exported = true → (f.kind = .str m ∨ f.kind = .bytes (some m)) → action (fromTag f.tag ov) = .keep → o = .one (.plain m)) ∧
+    ((fromTag f.tag ov).cls = .pub → o = rawField f.kind) := by
   unfold filterOne at h
-  refine ⟨?_, ?_, ?_, ?_⟩
+  refine ⟨?_, ?_, ?_, ?_, ?_⟩
   · intro hex; simp [hex] at h; exact h.symm
   · intro hk
-    cases hex : f.exported <;> simp [hex, hk] at h <;> exact h.symm
+    cases hex : f.exported <;> simp [hex, hk, rawField] at h <;> exact h.symm
   · intro hk
-    cases hex : f.exported <;> simp [hex, hk] at h
-    · exact h.symm
-    · split at h <;> simp at h <;> exact h.symm
+    cases hex : f.exported <;> simp [hex, hk, rawField] at h <;> exact h.symm
   · intro m hex hk ha
-    rcases hk with hk | hk <;> simp [hex, hk, ha] at h <;> exact h.symm
+    rcases hk with hk | hk <;> simp [hex, hk, ha, filterLeaf] at h <;> exact h.symm
+  · intro hp
+    have hkeep : action (fromTag f.tag ov) = .keep := by simp [action, hp]
+    cases hex : f.exported
+    · simp [hex] at h; exact h.symm
+    · cases hk : f.kind <;> simp [hex, hk, hp, hkeep, filterLeaf, rawField] at h ⊢ <;> first | exact h.symm | (rename_i m; cases m <;> simp_all [rawField])
 
-theorem length_preserved (k : Keys) (ek : Option EventKeys) (fails : Bool) (ov : Overrides) (fs : List Field) (ls : List Leaf)
+/-- a filtered slice keeps its length -/
+theorem filterElems_length (k : Keys) (ek : Option EventKeys) (a : Action) :
+    ∀ (ms : List (Option Nat)) (ls : List Leaf), filterElems k ek a ms = some ls → ls.length = ms.length := by
+  intro ms
+  induction ms with
+  | nil => intro ls h; simp [filterElems] at h; subst h; rfl
+  | cons x rest ih =>
+    intro ls h
+    cases x with
+    | none =>
+      simp only [filterElems] at h
+      cases hr : filterElems k ek a rest with
+      | none => simp [hr] at h
+      | some ls' => simp [hr] at h; subst h; simp [ih ls' hr]
+    | some m =>
+      simp only [filterElems] at h
+      cases hl : filterLeaf k ek a m with
+      | none => simp [hl] at h
+      | some l =>
+        simp only [hl] at h
+        cases hr : filterElems k ek a rest with
+        | none => simp [hr] at h
+        | some ls' => simp [hr] at h; subst h; simp [ih ls' hr]
+
+theorem length_preserved (k : Keys) (ek : Option EventKeys) (fails : Bool) (ov : Overrides) (fs : List Field) (ls : List FOut)
     (h : processFlat k ek fails ov fs = .filtered ls) : ls.length = fs.length := by
   unfold processFlat at h
   split at h
